@@ -15,22 +15,24 @@ def dbits(x):
 
 class C12(Prop):
     pid = "C12"
-    lean_targets = ["M17.Props.C12"]
+    lean_targets = ["M17.Props.C12", "M17.Props.C12M"]
     theorems = ["M17.C12.lookup_mem", "M17.C12.llr_nonzero_bounded", "M17.C12.llr_sign_is_gray_dibit", "M17.C12.llr1_antitone",
                 "M17.C12.llr_saturates", "M17.C12.table_F4", "M17.C12.table_D4", "M17.C12.table_F3", "M17.C12.table_D3",
-                "M17.C12.table_F2", "M17.C12.table_D2", "M17.C12.levels_width4", "M17.C12.levels_width23"]
+                "M17.C12.table_F2", "M17.C12.table_D2", "M17.C12.levels_width4", "M17.C12.levels_width23",
+                "M17.C12M.lookup_up", "M17.C12M.lookup_down", "M17.C12M.lookup_first", "M17.C12M.llr0_monotone_in_abs",
+                "M17.C12M.second_bit_monotone_all_tables"]
     level_text = ("Lean 4 theorems, generic in the table under a decidable predicate TableOK and holding for EVERY float and double value "
                   "(values are exact integers in units of 2^-1074; NaN and infinities included): both soft bits non-zero and within +-L; signs "
                   "are the Gray dibit of the nearest level outside a 2^-20 guard band around 0 and +-2 (stronger than the 1e-6 of the property); "
                   "the first soft bit never increases with the sample; everything beyond +-3 and NaN maps to the value at +-3 / -3; then TableOK "
                   "and column monotonicity for the six tables compiled from the current make_llr_map (float/double x widths 2,3,4) and full "
                   "confidence at the ideal levels, by kernel evaluation on the exactly dumped tables. The monotonicity of the SECOND bit in |x| "
-                  "(per side of zero) is established for the tables (Monotone2) but not lifted to a theorem over all samples; it is covered by "
-                  "the exhaustive sweep of all 2^32 float patterns (thorough) / 2^26 (quick) on the C++ and by model comparison.")
+                  "is a theorem too (M17.Props.C12M: llr0_monotone_in_abs, lifted from the table predicate Monotone2 by induction over the "
+                  "sorted table, for every finite value on each side of zero; instantiated for the six tables). The exhaustive sweep of all "
+                  "2^32 float patterns (thorough) / 2^26 (quick) on the C++ and the model comparison tie the tables' use to the code.")
     design_ref = "DESIGN.md §5 C12"
     level_note = ("Trusted: Lean kernel; dump_tables.cpp (exact dump of thresholds via frexp); IEEE comparison semantics of finite values, "
-                  "std::lower_bound / std::min / std::max as modelled (NaN handling by argument order). Second-bit monotonicity partial as "
-                  "stated. Axioms: propext, Classical.choice, Quot.sound only.")
+                  "std::lower_bound / std::min / std::max as modelled (NaN handling by argument order). Axioms: propext, Classical.choice, Quot.sound only.")
     technique = "Lean 4 proof (generic lookup lemmas over sorted threshold tables + kernel-evaluated table predicates on exactly dumped tables) + bit-exact differential correspondence + exhaustive float sweep"
     rule = ("bit patterns: every table threshold +-2 ulp, +-0, subnormals, +-inf, NaNs, ideal levels, decision boundaries +-1e-6, uniform random "
             "bit patterns and uniform random reals in [-4,4], for float and double x widths 2,3,4: C++ llr<F,W> vs Lean model bit-exact; "
